@@ -34,4 +34,14 @@ PROPS = {
         "assumptions": ["Rust release semantics (wrapping) for the f64 kernels; `from_mont` is used within its documented precondition (value < M)"],
         "rule": "requests = (field, op, operands); operands biased to 0, 1, p-1, (p-1)/2, 2^32 and 2^63 bands and, for f64, to raw Montgomery words around every case split of the proofs; non-trivial = distinct request line",
     },
+    "C11": {
+        "gen": [["fieldconsts", "f64", "f62", "f128"]],
+        "streams": [("c11", 150, 5000)],
+        "trusted": [TIE_C,
+                    "translator tie: lean/Wf/Gen/FieldConsts.lean (moduli, generators, two-adicities, roots of unity, Montgomery constants) and the Frobenius formulas in Wf/Gen/F6x.lean are regenerated from math/src/field/*/mod.rs on every run",
+                    "modular powers are evaluated by the Lean kernel (`decide +kernel`) through a verified binary powMod (lean/Wf/Lemmas/PowMod.lean); primality via Mathlib's lucas_primality",
+                    "encodings are modelled at value level (lean/Wf/Model/FieldCodec.lean); the stored-word/value relation is C10's"],
+        "assumptions": ["irreducibility of the extension polynomials is NOT proved (gap, see DESIGN.md); Frobenius constants are certified on the basis vectors in the specification ring (linearity argued, not mechanised)"],
+        "rule": "requests = decoder/encoder/conversion calls on values at and around the modulus (M-2..M+2, 2M, 2^k, type maxima), all truncations, EVERY root-of-unity order 1..two-adicity for the three fields (exhaustive) with an order check by repeated squaring on the implementation",
+    },
 }
